@@ -162,6 +162,13 @@ func genC02(g *Rng, tier string, emit func(Op)) {
 		emit(listOp(s.keys, s.trees, g.bits(256), s.nonce, s.issig, nil, "context-random", "reject"))
 		emit(listOp(s.keys, s.trees, s.ctx, g.bits(128), s.issig, nil, "nonce-random", "reject"))
 		emit(listOp(s.keys, s.trees, s.nonce, s.ctx, s.issig, nil, "context-nonce-swapped", "reject"))
+		// arbitrary changes include a flipped sign (the verifier's own values are arbitrary integers)
+		if s.nonce.Sign() != 0 {
+			emit(listOp(s.keys, s.trees, s.ctx, new(big.Int).Neg(s.nonce), s.issig, nil, "nonce-negated", "reject"))
+		}
+		if s.ctx.Sign() != 0 {
+			emit(listOp(s.keys, s.trees, new(big.Int).Neg(s.ctx), s.nonce, s.issig, nil, "context-negated", "reject"))
+		}
 		emit(listOp(s.keys, s.trees, s.ctx, s.nonce, !s.issig, nil, "other-session-kind", "reject"))
 		// empty list / length mismatch
 		emit(listOp(nil, []any{}, s.ctx, s.nonce, s.issig, nil, "empty", "reject"))
